@@ -250,3 +250,57 @@ func CheckStruct(key string, want *gen.Node, b []byte, encSize, decSize int, dec
 	}
 	return ""
 }
+
+// Project maps a value of one schema version onto another version of the same message:
+// fields whose tag the target version does not declare are dropped, nested messages and
+// lists of messages are projected recursively by the target's declared types.
+func Project(n *gen.Node, targetKey string) *gen.Node {
+	d := Registry[targetKey]
+	if d == nil || n == nil || n.Kind != gen.KMessage {
+		return n
+	}
+	byTag := map[uint16]Field{}
+	for _, f := range d.Fields {
+		byTag[f.Tag] = f
+	}
+	out := &gen.Node{Kind: gen.KMessage}
+	for _, f := range n.Fields {
+		tf, ok := byTag[f.Tag]
+		if !ok {
+			continue
+		}
+		v := f.V
+		if tf.Type.Kind == KMessage {
+			if tf.Type.List && v.Kind == gen.KList {
+				l := &gen.Node{Kind: gen.KList}
+				for _, e := range v.Elems {
+					l.Elems = append(l.Elems, Project(e, tf.Type.Ref))
+				}
+				v = l
+			} else {
+				v = Project(v, tf.Type.Ref)
+			}
+		}
+		out.Fields = append(out.Fields, gen.F(f.Tag, v))
+	}
+	return out
+}
+
+// Eq compares two value trees up to NaN quieting and field order.
+func Eq(a, b *gen.Node) bool { return eq(a, b) }
+
+// Overlay returns base with the fields of over replacing / extending it (over wins).
+func Overlay(base, over *gen.Node) *gen.Node {
+	out := &gen.Node{Kind: gen.KMessage}
+	seen := map[uint16]bool{}
+	for _, f := range over.Fields {
+		out.Fields = append(out.Fields, f)
+		seen[f.Tag] = true
+	}
+	for _, f := range base.Fields {
+		if !seen[f.Tag] {
+			out.Fields = append(out.Fields, f)
+		}
+	}
+	return out
+}
